@@ -122,7 +122,8 @@ theorem ag_div (a b : TT) (u : Term) (τ : Ty) (ha : TOK (mkNorm a.1) a.2) (hb :
       obtain ⟨h1, h2⟩ := division_eq _ _ ha' hb'
       have hplain : mkNorm (Std.node .div [a, b]) = divNorm (mkNorm a.1) (mkNorm b.1) := by
         simp only [Std.node, List.map_cons, List.map_nil]
-        rw [mkNorm_node]; rfl
+        rw [mkNorm_node]
+        simp only [List.map_cons, List.map_nil, rootNorm, ha'.ty, beq_self_eq_true, if_true]
       have fin : ∀ v, mkNorm v = divNorm (mkNorm a.1) (mkNorm b.1) → Agrees (.special "_division") [a, b] v .real := by
         intro v hv
         unfold Agrees
